@@ -227,7 +227,7 @@ def make_hedger(rng, derivative, n_hedges, model_kind=None, dtype=None, criterio
     bs_ok = option and not (
         derivative._pfv_kind in ("american_binary", "lookback") and not derivative.call
     )
-    if model_kind in ("bs", "ww") and not bs_ok:
+    if model_kind in ("bs", "ww") and not (bs_ok and n_hedges == 1):
         model_kind = "linear"
     if model_kind == "bs":
         model = BlackScholes(derivative)
